@@ -1,6 +1,6 @@
 """C15 — syntactic variants and documented sugar denote the same monitor."""
 import logging
-from rtverif import lang, drive
+from rtverif import monitors, lang, drive
 from rtverif import ref_discrete as refd
 from rtverif.lang import N
 from rtverif.props.base import Prop, Verdict, fmt
@@ -343,7 +343,7 @@ class C15(Prop):
                         continue
                     t0, on0, off0 = outs[0]
                     for t, on, off in outs:
-                        if repr(on) != repr(on0) or repr(off) != repr(off0) or repr(on) != repr(off):
+                        if not monitors.same_num(on, on0) or not monitors.same_num(off, off0) or not monitors.same_num(on, off):
                             ctx.violation('variant-differs:two-time-scales', 'spellings of one two-time-scale specification '
                                           'disagree (unit ms, period 1 ms): %r online %s offline %s; %r online %s offline %s; '
                                           'data=%s' % (t0, on0, off0, t, on, off, data),
